@@ -154,7 +154,8 @@ func (f *Function) DotNotNil(name string, arg interface{}) *Function {
 		return f
 	}
 
-	fn, err := Func(name, arg)
+	// The argument was given, it is part of the function also when it is a zero value.
+	fn, err := FuncWithZero(name, arg)
 	if err != nil {
 		f.err = err
 		return f
@@ -175,7 +176,8 @@ func (f *Function) DotNotEmpty(name string, arg ...interface{}) *Function {
 		return f
 	}
 
-	fn, err := Func(name, arg...)
+	// The arguments were given, they are part of the function also when they are zero values.
+	fn, err := FuncWithZero(name, arg...)
 	if err != nil {
 		f.err = err
 		return f
